@@ -167,7 +167,9 @@ var PanicObserver func(kind, site, panicText, statement string)
 // phaseSubstMySQL / phaseSubstPG, same generator streams, so the first nMySQL / nPG statements are the ones a C13 run
 // of the same seed rewrites) plus every harvested statement, and applies the C13 oracles to r. Used by C14 with a
 // throw-away run: there only the panics (PanicObserver) and the execution counters matter.
-func RunRewriters(r *ev.Run, nMySQL, nPG int) error {
+// derive, when not nil, is handed the statement texts generated for a dialect ("mysql" / "postgresql") and returns
+// further statement texts (C14: structural and token edits of them), which are run through the same rewriters.
+func RunRewriters(r *ev.Run, nMySQL, nPG int, derive func(dialect string, corpus []string) []string) error {
 	harvested, err := sqlgen.Harvest(sqlgen.RepoPath())
 	if err != nil {
 		return err
@@ -201,6 +203,7 @@ func RunRewriters(r *ev.Run, nMySQL, nPG int) error {
 			jobs = append(jobs, job{kind: kind, origin: "harvest", text: h.Text, h: h})
 		}
 		m.run(jobs, f)
+		var corpus []string
 		const chunk = 20000
 		for done := 0; done < total; {
 			n := min(chunk, total-done)
@@ -222,7 +225,17 @@ func RunRewriters(r *ev.Run, nMySQL, nPG int) error {
 				jobs = append(jobs, job{kind: kind, origin: "gen", text: st.Text, st: st})
 			}
 			m.run(jobs, f)
+			for _, j := range jobs {
+				corpus = append(corpus, j.text)
+			}
 			done += n
+		}
+		if derive != nil {
+			jobs = jobs[:0]
+			for _, text := range derive(d.String(), corpus) {
+				jobs = append(jobs, job{kind: kind, origin: "derived", text: text})
+			}
+			m.run(jobs, f)
 		}
 	}
 	return nil
